@@ -10,7 +10,7 @@ rsync -a --exclude .git /repo/ $d/repo/
 rm -rf $d/repo/.git
 cd "$(dirname "$0")/.."
 mkdir -p /tmp/seedtry-ev
-VERIF_REPO=$d/repo VERIF_EVIDENCE_DIR=/tmp/seedtry-ev ./bin/mcx check $id --tier $tier 2>&1 | tail -${TAIL:-12}
+VERIF_REPO=$d/repo VERIF_EVIDENCE_DIR=/tmp/seedtry-ev ./bin/mcx check $id --tier $tier 2>&1 | tail -${TAIL:-400}
 rc=${PIPESTATUS[0]}
 echo "exit=$rc"
 rm -rf $d
